@@ -44,6 +44,8 @@ func checkC02(c *Check) {
 	discoveryFillsEndpoints(c, "C02.R5")
 	// … over a TLS configuration that is this filter's own: the pool key covers every TLS setting (C20.R4)
 	if c.ID == "C02" {
+		// the filter's own settings: an override is merged into an own copy of the defaults (C18.R3)
+		importObls(c, "C18", checkC18, "C02.R5", func(o *Obligation) bool { return strings.HasPrefix(o.Key, "C18.R3/merge-into-own-copy") })
 		importObls(c, "C20", checkC20, "C02.R5", func(o *Obligation) bool {
 			return strings.HasPrefix(o.Key, "C20.R4/hash-consumes-every-field") || strings.HasPrefix(o.Key, "C20.R4/id-is-hash-of-settings") || strings.HasPrefix(o.Key, "C20.R4/key-reads-every-setting")
 		})
